@@ -72,15 +72,31 @@ func c18Sequential(r *ev.Run) {
 		q := cq.NewCircularQueue(n)
 		var model []int
 		next := 1
+		// every snapshot handed out is kept and read again after each later
+		// operation: a snapshot is a value, later additions must not show in it
+		type kept struct {
+			snap []handler.Message
+			want string
+			at   int
+		}
+		var held []kept
 		for i, op := range hist {
 			if op == 'A' {
 				q.Add(msg(next))
 				model = modelAdd(model, n, next)
 				next++
 			} else {
-				got := ids(q.GetMessages())
+				snap := q.GetMessages()
+				got := ids(snap)
 				if fmt.Sprint(got) != fmt.Sprint(model) {
 					fail("snapshot-differs-from-last-N", n, hist[:i+1], model, got)
+					return q, model, false
+				}
+				held = append(held, kept{snap, fmt.Sprint(got), i})
+			}
+			for _, k := range held {
+				if now := fmt.Sprint(ids(k.snap)); now != k.want {
+					fail("snapshot-changed-after-it-was-returned", n, fmt.Sprintf("%s (snapshot of step %d read again)", hist[:i+1], k.at+1), k.want, now)
 					return q, model, false
 				}
 			}
@@ -129,11 +145,26 @@ func c18Sequential(r *ev.Run) {
 		// long run: state reached far from the initial state behaves like the canonical one
 		q := cq.NewCircularQueue(n)
 		var model []int
+		var heldSnap []handler.Message
+		var heldWant string
+		var heldAt int
 		for id := 1; id <= 70000; id++ { // past every 16-bit counter
 			q.Add(msg(id))
 			model = modelAdd(model, n, id)
-			got := ids(q.GetMessages())
+			snap := q.GetMessages()
+			got := ids(snap)
 			trans += 2
+			// the snapshot taken 2n+1 additions ago (every phase of the ring comes round) is read again
+			if heldSnap != nil && id == heldAt+2*n+1 {
+				if now := fmt.Sprint(ids(heldSnap)); now != heldWant {
+					fail("snapshot-changed-after-it-was-returned", n, fmt.Sprintf("snapshot after %d additions read again after %d", heldAt, id), heldWant, now)
+					break
+				}
+				heldSnap = nil
+			}
+			if heldSnap == nil && id < 40*n+40 {
+				heldSnap, heldWant, heldAt = snap, fmt.Sprint(got), id
+			}
 			if fmt.Sprint(got) != fmt.Sprint(model) {
 				fail("snapshot-differs-from-last-N", n, fmt.Sprintf("%d additions", id), model, got)
 				break
@@ -206,6 +237,7 @@ type c18Op struct {
 	Kind      string // "add" or "get"
 	Arg       int
 	Res       []int
+	Raw       []handler.Message // the snapshot itself, read again when the execution is over
 	Call, Ret int
 }
 
@@ -313,8 +345,8 @@ func c18Scenarios(tier string) []*mcrt.Scenario {
 									obs.ret(op, nil)
 								} else {
 									op := obs.call("get", 0)
-									res := ids(q.GetMessages())
-									obs.ret(op, res)
+									op.Raw = q.GetMessages()
+									obs.ret(op, ids(op.Raw))
 								}
 							}
 							mcrt.Send(fin, true)
@@ -339,6 +371,11 @@ func c18Scenarios(tier string) []*mcrt.Scenario {
 					}
 					if obs.done > capN {
 						return &mcrt.Failure{Kind: "holds-more-than-capacity", Detail: fmt.Sprint(obs.done)}
+					}
+					for _, o := range obs.ops {
+						if o.Kind == "get" && fmt.Sprint(ids(o.Raw)) != fmt.Sprint(o.Res) {
+							return &mcrt.Failure{Kind: "snapshot-changed-after-it-was-returned", Detail: fmt.Sprintf("returned %v, later reads %v", o.Res, ids(o.Raw))}
+						}
 					}
 					if !linearizable(obs.ops, capN) {
 						var h []string
